@@ -37,6 +37,7 @@ type parser struct {
 	b       []byte
 	p       int
 	lenient string
+	nLen    int // number of lenient events (the reason string keeps only the first)
 	depth   int
 }
 
@@ -45,6 +46,7 @@ type rejectErr struct{ reason string }
 func (p *parser) fail(reason string) { panic(rejectErr{reason}) }
 
 func (p *parser) lenientBecause(r string) {
+	p.nLen++
 	if p.lenient == "" {
 		p.lenient = r
 	}
@@ -340,7 +342,7 @@ func (p *parser) listOrArray() *refnbt.Value {
 		out.Elem = refnbt.End
 		return out
 	}
-	lenientBefore := p.lenient
+	lenientBefore := p.nLen
 	mixed := false
 	for {
 		v := p.value()
@@ -365,7 +367,7 @@ func (p *parser) listOrArray() *refnbt.Value {
 	if mixed {
 		// Mixed element tags are a structural error only when no lenient literal took part
 		// (a lenient literal's tag is not pinned down).
-		structural := p.lenient == lenientBefore
+		structural := p.nLen == lenientBefore
 		if !structural {
 			// mixture of container kinds is structural regardless of literals
 			kinds := map[string]bool{}
